@@ -88,7 +88,7 @@ def run_debouncer(b: Batch, cfg, instr=None, hold_plan=None):
                 time.sleep(gap)
             if hold is not None and not reached and hold.reached.is_set():
                 reached = True
-            e = mk_event(i)
+            e = mk_event(i // 2 if cfg.get("equal_events") else i)  # equal-valued, distinct objects: each must be delivered
             tc = time.monotonic()
             # handle_event needs the debouncer's condition; if the debouncer is parked by the harness while holding it, deliver from a helper
             box = {}
@@ -256,6 +256,8 @@ def run_autorestart(b: Batch, inst, cfg, instr=None, hold_plan=None):
                 stop_thread.join(0.05)
             if hold is not None and not reached and hold.reached.is_set():
                 reached = True
+                if hold_plan.get("linger"):
+                    time.sleep(hold_plan["linger"])
                 if hold_plan.get("stop_while_held") and stop_thread is None:
                     stop_thread = threading.Thread(target=do_stop, name="wdv-stopper", daemon=True)
                     stop_thread.start()
@@ -293,7 +295,7 @@ def run_autorestart(b: Batch, inst, cfg, instr=None, hold_plan=None):
     if stop_rec.get("exc"):
         b.violation("autorestart-stop-raised", f"AutoRestartTrick.stop() raised {stop_rec['exc']}", witness=wit, replay_spec=rs)
     peak = audit_table(b, table, rs, wit, "autorestart")
-    spawns_before_stop = [r for r in table.log if r["what"] == "spawn" and r["t"] < stop_rec["call"]]
+    spawns_before_stop = [r for r in table.log if r["what"] == "spawn" and r["t"] < stop_rec["ret"]]
     last_spawned = spawns_before_stop[-1]["pid"] if spawns_before_stop else None
     # after stop() returned: no live child, no later spawn, helper threads gone
     time.sleep(0.25)
@@ -323,7 +325,7 @@ def run_autorestart(b: Batch, inst, cfg, instr=None, hold_plan=None):
     if alive and not later_spawns:
         b.violation("autorestart-helper-thread-alive", f"helper threads alive after stop(): {[monitors.thread_desc(t) for t in alive]}", witness=wit, replay_spec=rs)
     # restart accounting on quiescent scripts
-    if cfg.get("quiescent") and hold_plan is None:
+    if cfg.get("quiescent") and (hold_plan is None or (hold_plan.get("linger") and not hold_plan.get("stop_while_held"))):
         spawns = sum(1 for r in table.log if r["what"] == "spawn")
         owed = 1 + cfg["expected_restarts"]
         b.count("restart_counts_judged")
@@ -384,6 +386,8 @@ def deb_cfg(r):
         cfg["slow_cb"] = r.choice([0.01, 0.04])
     if r.random() < 0.15:
         cfg["stop_after"] = r.randrange(n)
+    if r.random() < 0.3:
+        cfg["equal_events"] = True
     return cfg
 
 
@@ -545,6 +549,13 @@ def run_batch(spec):
                                     cfg["debounce"] = 0
                                 cfg["behaviours"] = [dict(x, die_after_polls=r.choice([2, 4])) for x in cfg["behaviours"]]
                                 hp = {"role": pt[0], "qualname": pt[1], "line": pt[2], "nth": r.choice([1, 1, 2]), "stop_while_held": variant != 0}
+                                if variant == 0 and pt[0] == "wdv-events":
+                                    # the dispatcher is parked inside a restart for longer than the process watcher's polling period;
+                                    # one event must still cost exactly one restart
+                                    cfg = {"debounce": 0, "restart_on_exit": True, "behaviours": [{"die_after_polls": r.choice([1, 2])}] * 8,
+                                           "script": [("event",), ("wait", 0.3)], "quiescent": True, "expected_restarts": 1, "kill_after": 10}
+                                    hp["linger"] = 0.25
+                                    hp["nth"] = 1
                                 run_autorestart(b, inst, cfg, ins, hp)
         elif k == "deb1":
             if spec.get("hold"):
